@@ -12,7 +12,7 @@
    [fx = true] is the code after the C14 fix: commits, [fx = false] the pinned variant kept
    for the _refuted witnesses:
      - NotExpr.Check / ListExpr.Check / FieldAccessExpr.Check did not check (nor resolve names
-       in) their operand / items / left expression;
+       in) their operand / items / left expression and field name;
      - DeleteStmt.Validate did not require a Boolean WHERE;
      - the keyword operators and / or fell into the comparison branch;
      - & and | rejected the literals true / false;
@@ -255,8 +255,9 @@ Fixpoint check (e : expr) {struct e} : res expr :=
       end
   | EAccess p l f =>
       do l2 <- (if fx then (do l1 <- check l; Ok (rw l1)) else Ok l);
-      do _ <- check_access_shape l2 f;
-      Ok (EAccess p l2 f)
+      do f2 <- (if fx then check f else Ok f);     (* FieldName.Check; the field name itself is not resolved *)
+      do _ <- check_access_shape l2 f2;
+      Ok (EAccess p l2 f2)
   end.
 
 End WithCtx.
